@@ -42,6 +42,25 @@ def run(chk):
     chk.guard(r07_6_order, chk)
 
 
+def copy_number_counts_registered_items(chk, ccn) -> bool:
+    """Is every collection the copy number is counted over the item list of the object's own set (read directly or
+    through the set's accessor, helpers and properties looked through)?  Shared with C20 R20.1."""
+    from ..terms import SELF, contains, subterms, is_call, return_alternatives
+    fld = item_list_field(chk.ix)
+    cs = chk.terms.inline(ccn, 3)
+    iters = []
+    for _, t in return_alternatives(cs):
+        for x in subterms(t):
+            if is_call(x, "filter", 2):
+                iters.append(x[2][1])
+            elif x[0] == "comp" and len(x[3]) >= 1:
+                iters.append(x[3][0][1])
+            elif x[0] == "fold":
+                iters.append(x[5])
+    return bool(iters) and all(contains(it, lambda t: t[0] == "attr" and t[2] == fld and contains(t[1], SELF))
+                               for it in iters)
+
+
 def r07_1_copy_numbers(chk):
     ix = chk.ix
     item = ix.get_class("EFLRItem")
@@ -79,8 +98,7 @@ def r07_1_copy_numbers(chk):
                 f"the copy number does not count exactly the registered objects of the same name "
                 f"(predicate: {[pp(p_[0]) for p_ in preds]}): objects that later coincide in (type, origin, name) can share "
                 f"a copy number", ccn.where)
-    src = " ".join(pp(i) for i in iters)
-    chk.require("get_all_eflr_items" in src or "parent" in src, "R07.1", "copy-number-from-the-set's-item-list",
+    chk.require(copy_number_counts_registered_items(chk, ccn), "R07.1", "copy-number-from-the-set's-item-list",
                 "the copy number is not derived from the set's list of registered items", ccn.where)
     writers = []
     for f in ix.functions.values():
